@@ -222,6 +222,10 @@ def runSched (j : Json) : Json :=
   -- C08.no_idle_final_alap: between the first booked slot and the last slot before the deadline
   let alapTasks := (List.range e.tasks.size).filter (fun t =>
     eligB e t && (e.resD ((e.taskD t).alloc.headD 0)).leaf && (σ.tst t).scheduled && !(σ.tst t).forward)
+  let alapEndFail := alapTasks.filter (fun t =>
+    match (σ.tst t).stop with
+    | some v => !decide (v ≤ deadlineG e (loopStart e) σ t)
+    | none => true)
   let alapFail := alapTasks.filter (fun t =>
     let r := (e.taskD t).alloc.headD 0
     let booked := (σ.led.m.toList.filter (fun (ks : Key × Slot) => ks.1.1 == r && (usageOf ks.2.usage t).isSome)).map (fun ks => ks.1.2)
@@ -306,6 +310,7 @@ def runSched (j : Json) : Json :=
                          ("idle_tasks", Json.num (JsonNumber.fromNat idleTasks.length)), ("idle_fail", Json.num (JsonNumber.fromNat idleFail.length)),
                          ("idle_tasks_unlimited", Json.num (JsonNumber.fromNat idleUnlimited)),
                          ("alap_tasks", Json.num (JsonNumber.fromNat alapTasks.length)), ("alap_idle_fail", Json.num (JsonNumber.fromNat alapFail.length)),
+                         ("alap_end_fail", Json.num (JsonNumber.fromNat alapEndFail.length)),
                          ("fit_fail", Json.num (JsonNumber.fromNat fitFail.length)),
                          ("team_fit_tasks", Json.num (JsonNumber.fromNat teamUs.length)), ("team_fit_fail", Json.num (JsonNumber.fromNat teamFitFail.length)),
                          ("placed", Json.num (JsonNumber.fromNat order.length)), ("order_fail", Json.num (JsonNumber.fromNat ordFail.length)),
